@@ -216,7 +216,9 @@ func cmdCheck(args []string) int {
 				violations = append(violations, o)
 			}
 		}
-		if n == 0 && len(r.Exec.errs) == 0 {
+		if n == 0 && len(r.Exec.errs) == 0 && r.Unit.Kind != "refine" {
+			// (a refinement unit may have nothing to show: an interface contract without clauses and an
+			// implementation that changes nothing)
 			engineErrs = append(engineErrs, fmt.Sprintf("%s generated no obligations", r.Unit.Name))
 		}
 		funcs = append(funcs, map[string]interface{}{"unit": r.Unit.Name, "kind": r.Unit.Kind, "obligations": n, "discharged": ok, "vc_gen_s": round2(r.GenS), "solve_s": round2(r.SolveS)})
